@@ -17,7 +17,8 @@ from ..gen import genval
 LEVEL = "exploration"
 RULE = ("nested Struct/Sequence/Array/Prefixed/FixedSized/IfThenElse/Switch shapes with uniquely named members (depth<=4, some with docstrings), every leaf "
         "kind; EVERY truncation offset of every canonical encoding; every named leaf made unbuildable in turn (out-of-range integer, wrong-length bytes, "
-        "bytes for a string, unencodable string, unknown label, wrong element count); every named leaf made unsizable in turn (inherently, or through each "
+        "bytes for a string, unencodable string, unknown label, wrong element count); LazyStruct records truncated inside the length/count fields they must read; the member whose byte extent contains the cut must lie on the chain of the member that "
+        "performs the read; a build failure that is no ConstructError is a violation; every named leaf made unsizable in turn (inherently, or through each "
         "context-dependent parameter slot with the entry absent - reached via this.key, a callable with attribute access, a callable with item access). non-trivial = a failure at "
         "depth >= 2; distinct by (shape, operation, failing member)")
 ASSUMPTIONS = ["only ConstructError subclasses carry a path; failures that legitimately raise other exceptions (KeyError for a missing dict key) are not provoked"]
